@@ -60,6 +60,15 @@ def _default(o):
     return repr(o)
 
 
+def gen_scenario(mod, pid: str, seed: int, i: int, tier: str) -> dict:
+    """Scenario number i of a batch: a pure function of (VERIF_SEED, property, i)."""
+    import random
+
+    if hasattr(mod, "generate_indexed"):
+        return mod.generate_indexed(seed, i, tier)
+    return mod.generate(random.Random(splitmix(seed, pid, i)), tier)
+
+
 def load_prop(pid: str):
     return importlib.import_module(f"pyxsim.props.{pid.lower()}")
 
@@ -119,9 +128,7 @@ def _worker(pid: str, tier: str, seed: int, indices: list[int], deadline: float)
         if time.time() > deadline:
             agg["skipped"] += 1
             continue
-        sseed = splitmix(seed, pid, i)
-        rng = random.Random(sseed)
-        scn = mod.generate(rng, tier)
+        scn = gen_scenario(mod, pid, seed, i, tier)
         out = run_one(mod, scn)
         agg["n"] += 1
         for k, v in (out.get("stats") or {}).items():
